@@ -8,14 +8,14 @@ log=$wt.confirm.log
 {
   echo "== diff"; git -C $wt diff --stat -- xenium
   echo "== suite with the change"
-  test -f $wt/_build/build.ninja || cmake -G Ninja -S $wt -B $wt/_build -DCMAKE_BUILD_TYPE=RelWithDebInfo -DGOOGLETEST_ROOT=/repo/3rdParty/gtest/googletest >/dev/null
+  test -f $wt/_build/build.ninja || cmake -G Ninja -S $wt -B $wt/_build -DCMAKE_BUILD_TYPE=RelWithDebInfo -DGOOGLETEST_ROOT=../../../repo/3rdParty/gtest/googletest >/dev/null
   cmake --build $wt/_build --target gtest -- -j6 2>&1 | tail -2
   timeout 2400 ctest --test-dir $wt/_build -j6 --timeout 1800 2>&1 | tail -4
   echo "== demo with the change"
   g++ -std=c++17 $flags -I$wt $wt/demo/demo.cpp -o $wt/demo/demo_with 2>&1 | tail -3
   for i in 1 2 3; do timeout 120 $wt/demo/demo_with >/dev/null 2>&1; echo "run $i exit=$?"; done
-  echo "== demo against the unchanged /repo"
-  g++ -std=c++17 $flags -I/repo $wt/demo/demo.cpp -o $wt/demo/demo_without 2>&1 | tail -3
+  echo "== demo against the unchanged library (${SEED_BASE:-/repo})"
+  g++ -std=c++17 $flags -I${SEED_BASE:-/repo} $wt/demo/demo.cpp -o $wt/demo/demo_without 2>&1 | tail -3
   for i in 1 2 3; do timeout 120 $wt/demo/demo_without >/dev/null 2>&1; echo "run $i exit=$?"; done
 } > $log 2>&1
 echo done >> $log
